@@ -2,6 +2,7 @@ package props
 
 import (
 	"bytes"
+	"errors"
 	"fmt"
 	"testing"
 
@@ -76,6 +77,9 @@ func (cx *c02Ctx) tryAltered(x []byte, class string, keys bridge.KeySet, recvI b
 		got, err := libUnprotect(x, sa, recvI, withHdr)
 		if probe.IsPanic(err) {
 			return fmt.Errorf("%s: DecodeDecrypt panics on an altered message (%d octets, header pre-parsed=%v): %v", class, len(x), withHdr, err)
+		}
+		if errors.Is(err, errNeitherNor) {
+			return fmt.Errorf("%s: an altered message (%d octets, header pre-parsed=%v) is answered with neither an error nor a message", class, len(x), withHdr)
 		}
 		if err != nil && len(err.Error()) >= 12 && err.Error()[:12] == "ParseHeader:" {
 			continue // header cannot be pre-parsed: this mode does not exist for x
@@ -263,6 +267,19 @@ func c02Oracle(in c02In) probe.Outcome {
 			return fail(err)
 		}
 	}
+	// (c') extension that is a well-formed payload of a SUPPORTED type: the chain continues after SK with the type SK's
+	// next-payload field names, so a valid Notify / Nonce / Vendor body makes the outer chain [SK, payload]
+	for _, body := range [][]byte{{0, 0, 0x40, 0x00}, {1, 2, 3, 4, 5, 6, 7, 8}, {}} {
+		x := append(append([]byte(nil), w...), 0, 0, 0, byte(4+len(body)))
+		x = append(x, body...)
+		if err := cx.tryAltered(x, "extension:wellformed-payload", in.Keys, recvI); err != nil {
+			return fail(err)
+		}
+		gen.FixHeaderLength(x)
+		if err := cx.tryAltered(x, "extension:wellformed-payload+length", in.Keys, recvI); err != nil {
+			return fail(err)
+		}
+	}
 	// (d) multi-octet edits
 	for _, ed := range in.Edits {
 		x := append([]byte(nil), w...)
@@ -382,5 +399,5 @@ var c02Tamper = probe.Define("C02", "tamper", func(t *rapid.T) c02In {
 
 func TestC02(t *testing.T) {
 	c := probe.NewCtx(t, "C02")
-	c02Tamper.Run(c, t, c.N(150, 2000))
+	c02Tamper.Run(c, t, c.N(120, 2000))
 }
